@@ -392,30 +392,22 @@ func c04Body(depth int) func(x *engine.X) {
 	}
 }
 
-func c04DFS(tier string) *engine.DFS {
-	depth, dev := 4, 1
-	if tier == "thorough" {
-		depth, dev = 5, 2
-	}
-	return &engine.DFS{Name: "timers@" + tier, Body: c04Body(depth), Procs: 16, WorkerProcs: 2, ShardDepth: 3, MaxDeviations: dev, MaxPoints: 100, HangTimeout: 20 * time.Second}
+func c04DFS(tier string, st ioStage) *engine.DFS {
+	return &engine.DFS{Name: stageName("timers", tier, st), Body: c04Body(st.depth), Procs: 16, WorkerProcs: 2, ShardDepth: 3, MaxDeviations: st.dev, MaxPoints: 100, HangTimeout: 20 * time.Second}
 }
 
 func C04(tier string) *engine.Report {
 	rep := engine.NewReport("C04", tier, "exploration")
 	var tot engine.DFSTotals
-	d := c04DFS(tier)
-	d.Budget = 4 * time.Minute
-	if tier == "thorough" {
-		d.Budget = 25 * time.Minute
-	}
-	tot.Add(d.Run(), rep)
+	done := runLadder(rep, &tot, tier, func(st ioStage) *engine.DFS { return c04DFS(tier, st) })
 	tot.Fill(rep, "all action sequences up to the depth bound over two (optionally three) real timers and a FIFO reader on one IO: ScheduleOnce/ScheduleRepeating with delays {<=0, 30us awaited to expiry on the timerfd, 10 s never due}, Cancel, Close, new timer, FIFO read, peer data, poll; "+
-		"handler behaviours (cancel, close, cancel+re-arm, schedule on itself or the other timer) from timer and I/O callbacks are deviations, all combinations up to the bound; non-trivial = at least one action", d.MaxDeviations)
-	rep.Coverage["depth"] = map[string]int{"quick": 4, "thorough": 5}[tier]
+		"handler behaviours (cancel, close, cancel+re-arm, schedule on itself or the other timer) from timer and I/O callbacks are deviations, all combinations up to the bound; non-trivial = at least one action", 0)
+	fillLadder(rep, done, len(rep.Violations) > 0)
 	rep.Assumptions = append(rep.Assumptions, "timerfd readability (poll(2)) is trusted as 'the delay has passed'; never-early compares CLOCK_MONOTONIC before the scheduling call with callback entry, so it can only under-report")
 	return rep
 }
 
 func C04Replay(v engine.Violation, log func(string)) *engine.Violation {
-	return c04DFS(v.Config[7:]).ReplayChoices(v.Choices)
+	tier, st := parseStage(v.Config)
+	return c04DFS(tier, st).ReplayChoices(v.Choices)
 }
